@@ -5,7 +5,6 @@ import framework as fw
 import relational
 
 ALGOS = ["T_HOO", "HCT", "VHCT", "Zooming", "POO", "GPO", "SOO", "DOO", "StoSOO", "SequOOL", "VROOM", "PCT"]
-LEAN_EXTRA = ["PyXABProofs.Props.C06"]
 GROUP = relational.c16_group
 PID = "C16"
 RULE = ("for each algorithm a base run on a box B and runs on images phi(B) (per-dimension power-of-two scaling, translation, both, arbitrary scaling) with the same rewards and the same split fractions / sampling fractions; the image run must return exactly phi(points) and phi(recommendation) when phi is exact in floating point (dyadic boxes, power-of-two scalings; translations on midpoint partitions), else to 1e-9; DOO with its default diameter function only under translations (documented exception); every run is also compared call by call with the Lean model; non-trivial = group with >= 2 maps")
